@@ -270,7 +270,6 @@ template <class T> struct OCell { char st; T v; };
 template <class T> struct Obs { bool valid = false; std::vector<OCell<T>> cells; std::vector<T> glob; };
 struct Outcome {
     bool ok = false;
-    bool topMasked = false;   // reference interpreter only: "distribute top layer" met an inactive top cell
     std::vector<int> act;
     std::map<std::string, Obs<double>> d;
     std::map<std::string, Obs<int>> i;
@@ -379,7 +378,6 @@ struct RefState {
     std::map<std::string, GArr<double>> d;
     std::map<std::string, GArr<int>> i;
     std::map<std::string, GArr<double>> gd;      // the code's global storage of `global` keywords
-    bool topMasked = false;                       // "distribute top layer" met an inactive top cell (finding 2)
     int box[6];      // zero based inclusive i1 i2 j1 j2 k1 k2
     int n() const { return nx * ny * nz; }
     void globalBox() { box[0] = 0; box[1] = nx - 1; box[2] = 0; box[3] = ny - 1; box[4] = 0; box[5] = nz - 1; }
@@ -521,11 +519,11 @@ static void refKeyword(RefState& s, int sec, const KwOp& k) {
             });
         }
         if (sec == 0 && info.top && !refValid(s, a)) {
-            // "distribute top layer": every still undefined cell takes the deck entry of the top cell
-            // of its column, provided that top cell is in the box AND ACTIVE (whatever the entry's status)
+            // "distribute top layer": every still undefined cell takes the deck entry of the top cell of its
+            // column if that top cell is in the box — active or not, whatever the entry's status
             const int layer = s.nx * s.ny;
             std::vector<int> posOf(layer, -1);
-            forBox(s, [&](int g, int pos) { if (g < layer && s.act[g]) posOf[g] = pos; if (g < layer && !s.act[g]) s.topMasked = true; });
+            forBox(s, [&](int g, int pos) { if (g < layer) posOf[g] = pos; });
             for (int g = 0; g < s.n(); ++g) {
                 const int li = g % layer;
                 if (a[g].st == 'u' && posOf[li] >= 0) { a[g].st = 'd'; a[g].v = si(info, k.data[posOf[li]].d); }
@@ -650,9 +648,9 @@ static void refKeyword(RefState& s, int sec, const KwOp& k) {
             for (int g = 0; g < s.n(); ++g)
                 if (reg[g].v == r.rv && !scalarCell(k.name, a[g], x) && s.act[g]) bad = true;
             if (bad) throw RefErr{};
-            if (info.glob) {     // update_global_from_local: values of the touched ACTIVE cells only, status not updated
+            if (info.glob) {     // update_global_from_local: the touched ACTIVE cells, value and status
                 auto& ga = refGetG(s, r.a);
-                for (int g = 0; g < s.n(); ++g) if (s.act[g] && reg[g].v == r.rv) ga[g].v = a[g].v;
+                for (int g = 0; g < s.n(); ++g) if (s.act[g] && reg[g].v == r.rv) ga[g] = a[g];
             }
         }
         return;
@@ -706,7 +704,7 @@ static void refKeyword(RefState& s, int sec, const KwOp& k) {
             if (bad) throw RefErr{};
             if (info.glob) {
                 auto& ga = refGetG(s, r.a);
-                for (int g = 0; g < s.n(); ++g) if (s.act[g] && reg[g].v == r.rv) ga[g].v = a[g].v;
+                for (int g = 0; g < s.n(); ++g) if (s.act[g] && reg[g].v == r.rv) ga[g] = a[g];
             }
         }
         return;
@@ -778,7 +776,6 @@ static const int PROC_ORDER[5] = { 0, 1, 3, 2, 4 };
 static Outcome refObserve(RefState& s) {
     Outcome r;
     r.ok = true;
-    r.topMasked = s.topMasked;
     for (char a : s.act) r.act.push_back(a ? 1 : 0);
     for (const auto& k : DBL_ORDER) {
         const auto a = refGetD(s, k);
@@ -1169,6 +1166,76 @@ static void countCase(std::map<std::string, long>& st, const Case& c) {
 }
 
 // ---------------------------------------------------------------------------------------------
+// Fixed witnesses of the three defects found while building this check (design.d/C12.md; fixed in the code by
+// 5ceb9fc1d, d8c0ea4e0, 0679405ff).  Always evaluated by property mode.
+
+static std::optional<std::vector<double>> realGetDouble(const std::string& deckStr, const std::string& kw) {
+    try {
+        ParseContext pc;
+        ErrorGuard eg;
+        auto deck = theParser().parseString(deckStr, pc, eg);
+        EclipseState es(deck);
+        return es.fieldProps().get_double(kw);
+    } catch (const std::exception&) {
+        return std::nullopt;
+    }
+}
+
+static std::string smallDeck(const std::string& dimens, int n, const std::string& grid, const std::string& runspecExtra = "",
+                             const std::string& tail = "PROPS\nREGIONS\nSOLUTION\n") {
+    std::ostringstream o;
+    o << "RUNSPEC\nDIMENS\n " << dimens << " /\nOIL\nGAS\n" << runspecExtra << "METRIC\nGRID\nDX\n " << n << "*1 /\nDY\n " << n
+      << "*1 /\nDZ\n " << n << "*1 /\nTOPS\n " << n << "*1000 /\n" << grid << tail;
+    return o.str();
+}
+
+static bool sameBits(const std::vector<double>& a, const std::vector<double>& b) {
+    if (a.size() != b.size()) return false;
+    for (size_t i = 0; i < a.size(); ++i) if (hexCanon(a[i]) != hexCanon(b[i])) return false;
+    return true;
+}
+
+static void runWitnesses(vh::PropLog& log, std::map<std::string, long>& stats) {
+    const double mD = DBL.at("PERMX").scale;
+    // (a) a region operation followed by a box operation on an array with global storage
+    {
+        const std::string g = "PORO\n 2*0.3 /\nFLUXNUM\n 2*1 /\nEQUALREG\n PERMX 100 1 F /\n/\nMULTIPLY\n PERMX 2 /\n/\n";
+        const auto v = realGetDouble(smallDeck("2 1 1", 2, g, "WATER\n"), "PERMX");
+        const double e = (100.0 * mD) * 2.0;
+        if (!v) log.fail("witness.region-then-box", "EQUALREG PERMX 100 1 F; MULTIPLY PERMX 2 is rejected (stale global status)");
+        else if (!sameBits(*v, { e, e })) log.fail("witness.region-then-box", "PERMX after EQUALREG 100 and MULTIPLY 2 is not 200 mD in both cells");
+        else log.ok();
+        stats["witness.region-then-box"]++;
+    }
+    // (b) "distribute top layer" with the top cell inactive vs active: the lower cell must not notice
+    {
+        auto deck = [&](const std::string& act) {
+            return smallDeck("1 1 2", 2, "ACTNUM\n " + act + " /\nPORO\n 2*0.3 /\nBOX\n 1 1 1 1 1 1 /\nPERMY\n 100 /\nENDBOX\n"
+                             "BOX\n 1 1 1 1 2 2 /\nPERMY\n 1* /\nENDBOX\n", "WATER\n");
+        };
+        const auto a = realGetDouble(deck("0 1"), "PERMY"), b = realGetDouble(deck("1 1"), "PERMY");
+        if (!a || !b || a->size() != 1 || b->size() != 2) log.fail("witness.toplayer-inactive", "top-layer decks rejected or of unexpected size");
+        else if (hexCanon((*a)[0]) != hexCanon((*b)[1]))
+            log.fail("witness.toplayer-inactive", "lower cell PERMY " + hexCanon((*a)[0]) + " with the top cell inactive, " + hexCanon((*b)[1]) + " with it active");
+        else log.ok();
+        stats["witness.toplayer-inactive"]++;
+    }
+    // (c) a multi-valued (compositional) keyword on a grid with an inactive cell
+    {
+        const std::string g = "ACTNUM\n 1 0 1 1 /\nPORO\n 4*0.3 /\nPERMX\n 4*100 /\nPERMY\n 4*100 /\nPERMZ\n 4*100 /\n";
+        const std::string tail =
+            "PROPS\nCNAMES\n DECANE CO2 METHANE /\nROCK\n 68 0 /\nEOS\n PR /\nBIC\n 0 1 2 /\nACF\n 0.4 0.2 0.01 /\nPCRIT\n 20. 70. 40. /\n"
+            "TCRIT\n 600. 300. 190. /\nMW\n 142. 44. 16. /\nVCRIT\n 0.6 0.1 0.1 /\nSTCOND\n 15.0 /\n"
+            "SGOF\n 0.0 0.0 1.0 0.0\n 1.0 1.0 0.0 0.0 /\nREGIONS\nSOLUTION\nPRESSURE\n 4*100 /\nSGAS\n 4*1. /\nTEMPI\n 4*150 /\n"
+            "XMF\n 0.11 0.12 0.13 0.14\n 0.21 0.22 0.23 0.24\n 0.31 0.32 0.33 0.34 /\n";
+        const auto v = realGetDouble(smallDeck("4 1 1", 4, g, "COMPS\n 3 /\nTABDIMS\n 8* 1 3 /\n", tail), "XMF");
+        if (!v) log.fail("witness.multivalue-inactive", "compositional deck with ACTNUM 1 0 1 1 rejected");
+        else if (!sameBits(*v, { 0.11, 0.13, 0.14, 0.21, 0.23, 0.24, 0.31, 0.33, 0.34 }))
+            log.fail("witness.multivalue-inactive", "XMF is not the component-major list of the three active cells");
+        else log.ok();
+        stats["witness.multivalue-inactive"]++;
+    }
+}
 
 static int ncases(const std::string& tier, int quick, int thorough) { return tier == "thorough" ? thorough : quick; }
 
@@ -1296,6 +1363,7 @@ int main(int argc, char** argv) {
         vh::PropLog log(outdir + "/prop.txt");
         std::map<std::string, long> stats;
         Gen gen(rng, stats);
+        runWitnesses(log, stats);
         const int n = ncases(tier, 300, 3500);
         for (int j = 0; j < n; ++j) {
             Case c = gen.randCase(true);
@@ -1324,16 +1392,21 @@ int main(int argc, char** argv) {
             for (int x : c.actnum) same = same && x;
             if (same) continue;
             const Outcome rf = runReal(deckText(full), c.nx * c.ny * c.nz);
+            // Documented limitation of the code (FieldProps.cpp, handle_region_operation: "Region operation on 3D
+            // field {} with global storage will not update inactive cells"): after EQUALREG/ADDREG/MULTIREG/OPERATER
+            // on PERMX/Y/Z or MULTZ the global storage of INACTIVE cells stays undefined, so a later box operation
+            // over such a cell is rejected although the all-active run is accepted.  Only this verdict clause is
+            // waived, and only for programs containing such a region operation.
+            bool regionOnGlobal = false;
+            for (int sct = 0; sct < 5; ++sct) for (const auto& k : c.sec[sct])
+                if (k.type == KT::SREG || k.type == KT::OPRR) for (const auto& r : k.recs) if (isGlob(r.a)) regionOnGlobal = true;
+            if (rf.ok && !real.ok && regionOnGlobal) { stats["inactive.verdict-waived-region-on-global-storage"]++; continue; }
             if (rf.ok && !real.ok) {
                 vh::spit(outdir + "/" + key + ".DATA", deck);
                 log.fail("inactive.verdict." + key, "accepted with all cells active but rejected with ACTNUM; deck=" + outdir + "/" + key + ".DATA");
                 continue;
             }
             if (!(rf.ok && real.ok)) { stats["inactive.not-both-ok"]++; log.ok(); continue; }
-            // Finding 2 (design.d/C12.md): `distribute_toplayer` reads the top cell through the ACTIVE index
-            // list, so a column whose top cell is inactive is not filled.  Programs that run into it are
-            // counted, not compared (set VERIF_C12_FINDINGS=1 to have them reported as failures).
-            if (ref.topMasked && !std::getenv("VERIF_C12_FINDINGS")) { stats["inactive.skipped-toplayer-finding"]++; continue; }
             // map active index -> global for both runs
             std::vector<int> posA(real.act.size(), -1), posF(rf.act.size(), -1);
             { int a1 = 0, a2 = 0; for (size_t g = 0; g < real.act.size(); ++g) { if (real.act[g]) posA[g] = a1++; if (rf.act[g]) posF[g] = a2++; } }
